@@ -70,22 +70,25 @@ SubSeqFrom(s, i) == IF i > Len(s) THEN <<>> ELSE SubSeq(s, i, Len(s))
      k = "M": id in s, for mark/ and generated/ tags
      k = "R": stream is in tag t         (tag:t)             main-query tag reference
      k = "N": stream is not in tag t     (-tag:t)
-   s is a strictly ascending sequence. *)
+     k = "S": some stream of tag t has the same server port  (@sub:tag:t sport:@sub:sport@)   sub-query tag reference
+   s is the id list as written (mark definitions are compared as text by the manager). *)
 Def(k, n, s, t) == [k |-> k, n |-> n, s |-> s, t |-> t]
-Refs(d)      == IF d.k \in {"R", "N"} THEN {d.t} ELSE {}
+Refs(d)      == IF d.k \in {"R", "N", "S"} THEN {d.t} ELSE {}
+FeatSub(d)   == d.k = "S"                     \* SubQueryFeatures # 0: invalidated completely (manager.go:605)
 FeatIdOnly(d) == d.k \in {"I", "M"}            \* MainFeatures &^ FeatureFilterID = 0   (manager.go:608)
 FeatData(d)   == d.k \in {"D", "L"}            \* data | absolute time                  (manager.go:614)
 FeatConvOK(d) == d.k \in {"P", "L", "I", "M"}  \* attachConverterToTag: no data filter, no tag reference
 IsMarkName(n) == \E i \in 1 .. Len(n) : SubSeq(n, 1, i) \in {"mark/", "generated/"}
 
 \* Does definition d accept stream (id, conn, ver) given the matches tdM of referenced tags?
-Eval(d, id, conn, ver, tdM) ==
+Eval(d, id, conn, ver, tdM, vis) ==
     CASE d.k = "P" -> Port[conn] = d.n
       [] d.k = "D" -> d.n \in ver
       [] d.k = "L" -> Max(ver) >= d.n
       [] d.k \in {"I", "M"} -> id \in Range(d.s)
       [] d.k = "R" -> id \in tdM[d.t]
       [] d.k = "N" -> id \notin tdM[d.t]
+      [] d.k = "S" -> \E e \in vis : e[1] \in tdM[d.t] /\ Port[e[2]] = Port[conn]
 
 (* ---------- index files ---------- *)
 Entries(fseq)  == UNION {files[fseq[i]] : i \in DOMAIN fseq}
@@ -113,9 +116,11 @@ ReleaseSeq(u, F, fseq) ==
 
 (* ---------- tag maintenance ---------- *)
 \* inheritTagUncertainty (manager.go:565-600); the tag graph is acyclic
-RECURSIVE InhU(_, _)
-InhU(tg, t) == tg[t].U \cup UNION {InhU(tg, r) : r \in Refs(tg[t].def) \cap DOMAIN tg}
-Inherit(tg) == [t \in DOMAIN tg |-> [tg[t] EXCEPT !.U = InhU(tg, t)]]
+RECURSIVE InhU(_, _, _)
+InhU(tg, all, t) ==
+    LET sub == UNION {InhU(tg, all, r) : r \in Refs(tg[t].def) \cap DOMAIN tg} IN
+    IF FeatSub(tg[t].def) THEN (IF sub # {} THEN all ELSE tg[t].U) ELSE tg[t].U \cup sub
+Inherit(tg, all) == [t \in DOMAIN tg |-> [tg[t] EXCEPT !.U = InhU(tg, all, t)]]
 
 \* StreamIDs(nextStreamID) of a plain id list (conditions.go:1965): every maximal run lo..hi of the list is
 \* clipped to hi' = next-1 when hi > next (sic: a run ending exactly at `next` is kept)
@@ -126,10 +131,11 @@ MarkIDs(d, next) ==
     IN {i \in ids : i <= clip(runHi(i))}
 
 \* invalidateTags (manager.go:602-631): id-only tags are decided directly for added streams
-Invalidate(tg, upd, res, add, next) ==
+Invalidate(tg, upd, res, add, next, all) ==
     Inherit([t \in DOMAIN tg |->
-        IF FeatIdOnly(tg[t].def) THEN [tg[t] EXCEPT !.M = @ \cup (MarkIDs(tg[t].def, next) \cap add)]
-        ELSE [tg[t] EXCEPT !.U = @ \cup add \cup res \cup (IF FeatData(tg[t].def) THEN upd ELSE {})]])
+        IF FeatSub(tg[t].def) THEN [tg[t] EXCEPT !.U = all]
+        ELSE IF FeatIdOnly(tg[t].def) THEN [tg[t] EXCEPT !.M = @ \cup (MarkIDs(tg[t].def, next) \cap add)]
+        ELSE [tg[t] EXCEPT !.U = @ \cup add \cup res \cup (IF FeatData(tg[t].def) THEN upd ELSE {})]], all)
 
 NoJob(kind) ==
     CASE kind = "import" -> [phase |-> "none", batch |-> <<>>, idx |-> <<>>, next |-> 0, file |-> "",
@@ -257,7 +263,7 @@ ImportDone(pick) ==
         idx1 == Append(indexes, j.file)
         use1 == LockSeq(rel[1], <<j.file>>)
         du1 == [upd |-> during.upd \cup j.upd, res |-> during.res \cup j.res, add |-> during.add \cup j.add]
-        tg1 == Invalidate(tags, j.upd, j.res, j.add, j.next + j.used)
+        tg1 == Invalidate(tags, j.upd, j.res, j.add, j.next + j.used, 0 .. (j.next + j.used - 1))
         ic == InvalidateConv(toConv, cache, j.upd)
         q1 == SubSeqFrom(queue, Len(j.batch) + 1)
         next1 == j.next + j.used
@@ -288,7 +294,7 @@ ImportDone(pick) ==
 TagCompute ==
     LET j == jobs.tag
         vis == Visible(j.idx)
-        hit == {e[1] : e \in {x \in vis : x[1] \in j.U0 /\ Eval(j.def, x[1], x[2], x[3], j.td)}}
+        hit == {e[1] : e \in {x \in vis : x[1] \in j.U0 /\ Eval(j.def, x[1], x[2], x[3], j.td, vis)}}
     IN
     /\ j.phase = "start"
     /\ jobs' = [jobs EXCEPT !.tag = [j EXCEPT !.phase = "gate", !.M1 = (j.M0 \ j.U0) \cup hit]]
@@ -301,7 +307,7 @@ TagDone(pick) ==
         tg1 == IF same THEN [tags EXCEPT ![j.tag] = [@ EXCEPT !.M = j.M1, !.U = {}]] ELSE tags
         tc1 == IF same THEN [c \in DOMAIN toConv |-> IF c \in tags[j.tag].convs THEN toConv[c] \cup j.M1 ELSE toConv[c]]
                ELSE toConv
-        tg2 == IF same THEN Invalidate(tg1, during.upd, during.res, during.add, nextID) ELSE tg1
+        tg2 == IF same THEN Invalidate(tg1, during.upd, during.res, during.add, nextID, allS) ELSE tg1
         fl1 == [flags EXCEPT !.tag = FALSE]
         b0 == Bundle(tg2, fl1, [jobs EXCEPT !.tag = NoJob("tag")], use, during, tc1)
         b1 == StartTag(b0, indexes, pick)
@@ -370,7 +376,7 @@ ConvDone(pick) ==
     LET j == jobs.conv
         conv == UNION {j.ids[c] : c \in DOMAIN j.ids}
         tg1 == Inherit([t \in DOMAIN tags |->
-                    IF tags[t].def.k = "D" THEN [tags[t] EXCEPT !.U = @ \cup conv] ELSE tags[t]])
+                    IF tags[t].def.k = "D" THEN [tags[t] EXCEPT !.U = @ \cup conv] ELSE tags[t]], allS)
         du1 == [during EXCEPT !.upd = @ \cup conv]
         fl1 == [flags EXCEPT !.conv = FALSE]
         b0 == Bundle(tg1, fl1, [jobs EXCEPT !.conv = NoJob("conv")], use, du1, toConv)
@@ -396,7 +402,7 @@ Reaches(tg, from, to) ==          \* does tag `from` (transitively) reference `t
     \/ to \in Refs(tg[from].def)
     \/ \E r \in Refs(tg[from].def) \cap DOMAIN tg : Reaches(tg, r, to)
 
-DefValid(d) == d.k \in {"P", "D", "L", "I", "M", "R", "N"}     \* the query parses and is allowed in a tag
+DefValid(d) == d.k \in {"P", "D", "L", "I", "M", "R", "N", "S"}     \* the query parses and is allowed in a tag
 AddTagOK(name, d) ==
     /\ DefValid(d)
     /\ name \notin DOMAIN tags
@@ -434,7 +440,7 @@ UpdQuery(name, d, pick) ==
     /\ LET old == tags[name]
            nt == [old EXCEPT !.def = d, !.U = allS, !.M = {}]
            tg1 == AddRefBy(DelRefBy([tags EXCEPT ![name] = nt], name, Refs(old.def) \ Refs(d)), name, Refs(d) \ Refs(old.def))
-           tg2 == Inherit(tg1)
+           tg2 == Inherit(tg1, allS)
            b0 == Bundle(tg2, flags, jobs, use, during, toConv)
            b1 == StartTag(b0, indexes, pick)
            b2 == StartConv(b1, indexes)
@@ -457,7 +463,7 @@ MarkAdd(name, ids, pick) ==
            new == Range(newSeq)
            nt == [old EXCEPT !.M = @ \cup new, !.def = [@ EXCEPT !.s = @ \o newSeq], !.U = @ \cup new]
            tc1 == [c \in DOMAIN toConv |-> IF c \in old.convs THEN toConv[c] \cup new ELSE toConv[c]]
-           tg1 == Inherit([tags EXCEPT ![name] = nt])
+           tg1 == Inherit([tags EXCEPT ![name] = nt], allS)
            tg2 == [tg1 EXCEPT ![name].U = {}]             \* the mark itself is decided (manager.go: Uncertain = {})
            b0 == Bundle(tg2, flags, jobs, use, [during EXCEPT !.res = @ \cup new], tc1)
            b1 == StartTag(b0, indexes, pick)
@@ -470,7 +476,7 @@ MarkDel(name, ids, pick) ==
     /\ LET old == tags[name]
            gone == Range(ids) \cap old.M
            nt == [old EXCEPT !.M = @ \ gone, !.def = [@ EXCEPT !.s = SeqOfSet(old.M \ gone)], !.U = @ \cup gone]
-           tg1 == Inherit([tags EXCEPT ![name] = nt])
+           tg1 == Inherit([tags EXCEPT ![name] = nt], allS)
            tg2 == [tg1 EXCEPT ![name].U = {}]
            b0 == Bundle(tg2, flags, jobs, use, [during EXCEPT !.res = @ \cup gone], toConv)
            b1 == StartTag(b0, indexes, pick)
@@ -502,7 +508,7 @@ ViewRelease(v) ==
 RECURSIVE TruthOf(_, _, _)
 TruthOf(tg, vis, t) ==
     LET td == [r \in Refs(tg[t].def) |-> TruthOf(tg, vis, r)]
-    IN {e[1] : e \in {x \in vis : Eval(tg[t].def, x[1], x[2], x[3], td)}}
+    IN {e[1] : e \in {x \in vis : Eval(tg[t].def, x[1], x[2], x[3], td, vis)}}
 
 \* C06: a decided answer is a correct answer
 NeverStaleFor(tg, vis, truth) ==
